@@ -1,5 +1,5 @@
 (* Proofs about the request id generator model (Rpc/ReqId.v). *)
-From Coq Require Import List ZArith Bool Lia ZifyBool.
+From Coq Require Import List ZArith Bool Lia ZifyBool ZifyNat.
 From TarsV Require Import Rpc.ReqId.
 Import ListNotations.
 Open Scope Z_scope.
@@ -238,6 +238,37 @@ Section Proofs.
     specialize (R Hs). rewrite Hs, app_length. cbn [length]. lia.
   Qed.
 End Proofs.
+
+(* ---------- the bound of id_distance is tight ---------- *)
+(* n consecutive Adds from c, staying below 2^31-1 *)
+Fixpoint upto (c : Z) (n : nat) : list Z := match n with O => [] | S k => (c + 1) :: upto (c + 1) k end.
+
+Lemma run_adds maxi n : forall c, in_i32 c -> c + Z.of_nat n < two31 ->
+  run_ops maxi c (repeat OAdd n) = (c + Z.of_nat n, upto c n).
+Proof.
+  induction n as [|n IH]; intros c Hc Hn; cbn [repeat run_ops upto].
+  - f_equal. lia.
+  - rewrite add_lt by (unfold in_i32, two31 in *; lia).
+    rewrite IH by (unfold in_i32, two31 in *; lia). f_equal. lia.
+Qed.
+
+Lemma upto_length c n : length (upto c n) = n.
+Proof. revert c. induction n; intros c; cbn; auto. Qed.
+
+(* from counter 1, 2^31-2 Adds hand out 2 .. maxInt32; the next call's Cas resets the counter and its Add hands out 2
+   again, exactly 2^31-2 allocations after the first (the list is never computed: the proof is symbolic) *)
+Definition tight_ops : list op := repeat OAdd (Z.to_nat 2147483646) ++ [OCas; OAdd].
+
+Theorem id_distance_tight : exists l2, adds 2147483647 1 tight_ops = 2 :: l2 ++ [2] /\ Z.of_nat (length l2) + 1 = two31 - 2.
+Proof.
+  unfold tight_ops, adds. rewrite run_ops_app.
+  rewrite run_adds by (unfold in_i32, two31; lia).
+  replace (1 + Z.of_nat (Z.to_nat 2147483646)) with 2147483647 by lia.
+  cbn [run_ops snd]. unfold cas. rewrite Z.eqb_refl.
+  replace (add 1) with 2 by reflexivity.
+  destruct (Z.to_nat 2147483646) as [|n] eqn:En; [lia|].
+  cbn [upto]. exists (upto 2 n). split; [reflexivity|]. rewrite upto_length. unfold two31. lia.
+Qed.
 
 (* non-vacuity: a concrete interleaving of three threads around the wrap threshold *)
 Example run_ex :
